@@ -240,7 +240,8 @@ def run(ctx, col: Collector):
             col.check(elems_ok and uses, 'C05-identity', f'Reference.__init__:{side}', f'self.{side} holds the very Column objects passed in',
                       f'Reference.__init__ stores `{norm(v)[:70]}` as {side}: the endpoint columns are rebuilt ({why}) instead of kept', node=st[0], file=ri.file)
         # TableBlueprint.build: index subjects are elements of result.columns
-        tb = idx.func(BP, 'TableBlueprint.build')
+        from ..inline import inlined_info
+        tb = inlined_info(idx, idx.func(BP, 'TableBlueprint.build'), depth=2)
         apps = [n for n in ast.walk(tb.node) if isinstance(n, ast.Call) and isinstance(n.func, ast.Attribute) and n.func.attr == 'append'
                 and 'subject' in norm(n.func.value)]
         n_col = 0
